@@ -289,6 +289,11 @@ fn cmd_run(get: &dyn Fn(&str) -> Option<String>) -> i32 {
     let known = load_known(&get("--known").unwrap_or_else(|| "/verif/known_findings.txt".into()));
     let config = get("--config").unwrap_or_else(|| "default".into());
     let survey = std::env::args().any(|a| a == "--survey");
+    // run indices to leave out (runs that crashed the whole process in an earlier attempt)
+    let skip: HashSet<u64> = get("--skip").map(|s| s.split(',').filter_map(|x| x.parse().ok()).collect()).unwrap_or_default();
+    let skip = Arc::new(skip);
+    // crash attribution: every worker records the run index it is executing in <prefix>.<worker>
+    let progress_prefix: Option<String> = get("--progress");
     let det_samples: u64 = get("--determinism").map(|s| s.parse().unwrap()).unwrap_or(if tier == Tier::Quick { 64 } else { 1024 });
 
     // oracle / workload self-validation (a failure is a harness error, never a violation)
@@ -340,6 +345,8 @@ fn cmd_run(get: &dyn Fn(&str) -> Option<String>) -> i32 {
     let mut handles = Vec::new();
     for tno in 0..threads {
         let running = running.clone();
+        let skip = skip.clone();
+        let progress_prefix = progress_prefix.clone();
         let next = next.clone();
         let stop = stop.clone();
         let agg = agg.clone();
@@ -356,7 +363,15 @@ fn cmd_run(get: &dyn Fn(&str) -> Option<String>) -> i32 {
                 break;
             }
             let rs = rng::run_seed(seed, check.id(), i);
+            if skip.contains(&i) {
+                let mut a = agg.lock().unwrap();
+                *a.discarded.entry("crashed_the_process".into()).or_insert(0) += 1;
+                continue;
+            }
             let run = gen_run(check, seed, i, tier);
+            if let Some(p) = &progress_prefix {
+                let _ = std::fs::write(format!("{p}.{tno}"), format!("{i}"));
+            }
             running.lock().unwrap()[tno] = Some((Instant::now(), i));
             let o = exec_isolated(check, &run);
             running.lock().unwrap()[tno] = None;
